@@ -3,15 +3,17 @@ package main
 // regexp: patterns are compiled by Go's own regexp/syntax; matching is a symbolic Pike-NFA simulation.
 
 import (
+	"regexp"
 	"regexp/syntax"
 	"strings"
 )
 
 type RegexpObj struct {
-	prog  *syntax.Prog
-	src   string
-	holes []*Term // symbolic literal bytes of the pattern, addressed by private-use runes U+E000+i
-	clos  map[uint32][]closEnt
+	native *regexp.Regexp // for patterns without symbolic bytes: concrete subjects are matched by the real library
+	prog   *syntax.Prog
+	src    string
+	holes  []*Term // symbolic literal bytes of the pattern, addressed by private-use runes U+E000+i
+	clos   map[uint32][]closEnt
 }
 
 type closEnt struct {
@@ -65,7 +67,11 @@ func init() {
 		if err != nil {
 			x.gopanic("regexp: Compile(`%s`): %v", pat.show(), err)
 		}
-		return &RegexpObj{prog: prog, src: src, holes: holes, clos: map[uint32][]closEnt{}}
+		ro := &RegexpObj{prog: prog, src: src, holes: holes, clos: map[uint32][]closEnt{}}
+		if len(holes) == 0 {
+			ro.native, _ = regexp.Compile(src)
+		}
+		return ro
 	}
 	intrinsics["(*regexp.Regexp).MatchString"] = func(x *Exec, a []Value) Value {
 		return x.reMatch(a[0].(*RegexpObj), a[1].(Str).b)
@@ -227,6 +233,20 @@ func (x *Exec) runeCond(r *RegexpObj, in *syntax.Inst, b *Term) *Term {
 
 func (x *Exec) reMatch(r *RegexpObj, s []*Term) *Term {
 	st := x.c.st
+	if r.native != nil {
+		conc := true
+		raw := make([]byte, len(s))
+		for i, t := range s {
+			if t.op != OpConst {
+				conc = false
+				break
+			}
+			raw[i] = byte(t.k)
+		}
+		if conc {
+			return st.Bool(r.native.Match(raw))
+		}
+	}
 	n := len(s)
 	matched := st.False
 	cur := map[uint32]*Term{}
